@@ -35,6 +35,7 @@ type HarnessRun struct {
 	outstanding int
 	started     int
 	exhausted   bool
+	timedOut    bool
 	engineErr   string
 	queries     int
 	solverTime  time.Duration
@@ -50,34 +51,57 @@ type task struct {
 }
 
 type pool struct {
-	mu    sync.Mutex
-	cond  *sync.Cond
-	stack []task
-	busy  int
-	tier  int
+	mu       sync.Mutex
+	cond     *sync.Cond
+	order    []*HarnessRun
+	stacks   map[*HarnessRun][][]int
+	pending  int
+	next     int
+	busy     int
+	tier     int
+	deadline time.Time
 }
 
-func (p *pool) push(ts ...task) {
+func (p *pool) push(h *HarnessRun, prefixes ...[]int) {
 	p.mu.Lock()
-	p.stack = append(p.stack, ts...)
+	if p.stacks == nil {
+		p.stacks = map[*HarnessRun][][]int{}
+	}
+	if _, ok := p.stacks[h]; !ok {
+		p.order = append(p.order, h)
+	}
+	p.stacks[h] = append(p.stacks[h], prefixes...)
+	p.pending += len(prefixes)
 	p.mu.Unlock()
 	p.cond.Broadcast()
 }
 
+// pop hands out work round-robin over the harnesses (depth-first within one harness), so that a
+// harness whose path count explodes cannot starve the others.
 func (p *pool) pop() (task, bool) {
 	p.mu.Lock()
 	defer p.mu.Unlock()
-	for len(p.stack) == 0 {
+	for p.pending == 0 {
 		if p.busy == 0 {
 			p.cond.Broadcast()
 			return task{}, false
 		}
 		p.cond.Wait()
 	}
-	t := p.stack[len(p.stack)-1]
-	p.stack = p.stack[:len(p.stack)-1]
-	p.busy++
-	return t, true
+	for i := 0; i < len(p.order); i++ {
+		h := p.order[(p.next+i)%len(p.order)]
+		st := p.stacks[h]
+		if len(st) == 0 {
+			continue
+		}
+		t := task{h, st[len(st)-1]}
+		p.stacks[h] = st[:len(st)-1]
+		p.pending--
+		p.next = (p.next + i + 1) % len(p.order)
+		p.busy++
+		return t, true
+	}
+	panic("pool: pending count out of sync")
 }
 
 func (p *pool) done() {
@@ -97,7 +121,7 @@ func solverBin() (string, []string) {
 		f := strings.Fields(s)
 		return f[0], f[1:]
 	}
-	return "z3", []string{"-in"}
+	return "z3", []string{"-in", "-memory:3000"}
 }
 
 func (p *pool) worker(wid int, wg *sync.WaitGroup) {
@@ -120,6 +144,11 @@ func (p *pool) worker(wid int, wg *sync.WaitGroup) {
 		h := t.h
 		h.mu.Lock()
 		skip := h.exhausted || h.engineErr != ""
+		if !skip && time.Now().After(p.deadline) {
+			h.exhausted = true
+			h.timedOut = true
+			skip = true
+		}
 		if !skip {
 			h.started++
 			if h.started > h.Budget {
@@ -175,11 +204,7 @@ func (p *pool) worker(wid int, wg *sync.WaitGroup) {
 			alts = st.m.RunPath(h.Fn, t.prefix)
 		}()
 		if len(alts) > 0 {
-			ts := make([]task, len(alts))
-			for i, a := range alts {
-				ts[i] = task{h, a}
-			}
-			p.push(ts...)
+			p.push(h, alts...)
 		}
 		h.mu.Lock()
 		h.wall = time.Since(h.t0)
@@ -302,6 +327,7 @@ func cmdCheck(args []string) int {
 	novalidate := fs.Bool("novalidate", false, "skip translator validation against the native build")
 	noevidence := fs.Bool("noevidence", false, "do not write the evidence file")
 	verbose := fs.Bool("v", false, "verbose")
+	maxwall := fs.Int("maxwall", 0, "wall-clock limit for exploration in seconds (default 900 quick, 14400 thorough)")
 	var prop string
 	if len(args) > 0 && !strings.HasPrefix(args[0], "-") {
 		prop = args[0]
@@ -391,6 +417,13 @@ func cmdCheck(args []string) int {
 	if *tier == "thorough" {
 		p.tier = 1
 	}
+	if *maxwall == 0 {
+		*maxwall = 400
+		if *tier == "thorough" {
+			*maxwall = 14400
+		}
+	}
+	p.deadline = time.Now().Add(time.Duration(*maxwall) * time.Second)
 	var runs []*HarnessRun
 	for _, g := range sel {
 		for _, m := range g.selected {
@@ -403,7 +436,7 @@ func cmdCheck(args []string) int {
 				h.Budget = m.PathsThorough
 			}
 			runs = append(runs, h)
-			p.stack = append(p.stack, task{h, nil})
+			p.push(h, nil)
 		}
 	}
 	var wg sync.WaitGroup
@@ -474,28 +507,45 @@ func cmdCheck(args []string) int {
 		sh := h.Sh
 		if h.engineErr != "" {
 			fmt.Printf("CHECK-BROKEN property=%s harness=%s engine error: %s\n", prop, h.Meta.Name, h.engineErr)
-			exit = 2
+			if exit != 1 {
+				exit = 2
+			}
 		}
-		if h.exhausted {
+		if h.timedOut {
+			fmt.Printf("CHECK-BROKEN property=%s harness=%s wall-clock limit %ds reached after %d paths (bound insufficient)\n", prop, h.Meta.Name, *maxwall, sh.Stats.Paths)
+			if exit != 1 {
+				exit = 2
+			}
+		} else if h.exhausted {
 			fmt.Printf("CHECK-BROKEN property=%s harness=%s path budget %d exhausted (bound insufficient)\n", prop, h.Meta.Name, h.Budget)
-			exit = 2
+			if exit != 1 {
+				exit = 2
+			}
 		}
 		if sh.Stats.UnwindHits > 0 || sh.Stats.DepthHits > 0 {
 			fmt.Printf("CHECK-BROKEN property=%s harness=%s unwinding assertion failed on %d paths (loop bound %d / depth %d insufficient)\n", prop, h.Meta.Name, sh.Stats.UnwindHits+sh.Stats.DepthHits, h.Meta.Unwind, h.Meta.Depth)
-			exit = 2
+			if exit != 1 {
+				exit = 2
+			}
 		}
 		if len(sh.Inconcl) > 0 {
 			fmt.Printf("CHECK-BROKEN property=%s harness=%s inconclusive solver answers: %v\n", prop, h.Meta.Name, sh.Inconcl)
-			exit = 2
+			if exit != 1 {
+				exit = 2
+			}
 		}
 		if h.valErr != "" {
 			fmt.Printf("CHECK-BROKEN property=%s harness=%s translator validation: %s\n", prop, h.Meta.Name, h.valErr)
-			exit = 2
+			if exit != 1 {
+				exit = 2
+			}
 		}
 		for _, r := range h.Meta.Reach {
 			if sh.Reached[r] == 0 && h.engineErr == "" {
 				fmt.Printf("CHECK-BROKEN property=%s harness=%s vacuity witness %q not reachable\n", prop, h.Meta.Name, r)
-				exit = 2
+				if exit != 1 {
+					exit = 2
+				}
 			}
 		}
 		// violations
@@ -528,7 +578,9 @@ func cmdCheck(args []string) int {
 			}
 			if !reproduced {
 				fmt.Printf("INCONCLUSIVE property=%s harness=%s %s %s: counterexample did not reproduce natively (%s) replay=%s\n", prop, v.Harness, v.Kind, v.ID, detail, rfile)
-				exit = 2
+				if exit != 1 {
+					exit = 2
+				}
 				continue
 			}
 			if f := matchFinding(findings, prop, v); f != nil {
@@ -544,9 +596,7 @@ func cmdCheck(args []string) int {
 			nviol++
 			fmt.Printf("VIOLATION property=%s replay=%s\n", prop, rfile)
 			fmt.Printf("  harness=%s %s %s tags=%v %s\n  %s\n", v.Harness, v.Kind, v.ID, v.Tags, v.Msg, detail)
-			if exit == 0 {
-				exit = 1
-			}
+			exit = 1 // a natively reproduced violation is a verdict whatever else went wrong
 		}
 		hr := hres{Harness: h.Meta.Name, Package: h.Meta.Pkg, Group: h.Group.Name, Paths: sh.Stats.Paths, Queries: h.queries, SolverS: round3(h.solverTime.Seconds()), WallS: round3(h.wall.Seconds()),
 			Instrs: sh.Stats.Instrs, Forks: sh.Stats.Forks, Asserts: sh.Asserts, Reached: sh.Reached, Bounds: map[string]string{}, Unwind: h.Meta.Unwind, UnwindHits: sh.Stats.UnwindHits + sh.Stats.DepthHits, Validated: h.validated}
